@@ -22,7 +22,11 @@ RULE = (
     "function), batchsize=s => every batch <= s and B=ceil(N/s), "
     "num_batches=k => B=min(k,N) and sizes differ by <= 1, and "
     "crop.batchsize/num_batches/num_sown_batches agree with that before and "
-    "after re-creating the Crop from disk.  Non-trivial = N mod B != 0 or "
+    "after re-creating the Crop from disk; a third of the cases sow the same "
+    "work a second time (same object / re-created Crop) and everything is "
+    "checked again; farmer cases also hand the same constants object to the "
+    "crop of a second farmer with other stored constants/resources and "
+    "compare with that farmer's direct run.  Non-trivial = N mod B != 0 or "
     "k > N or s > N.  Distinct by construction."
 )
 ASSUMPTIONS = [
@@ -61,6 +65,7 @@ def run_case(case):
         # a sow-time constant that repeats a stored one takes precedence,
         # exactly as in Runner.run_combos(constants=...)
         consts["p"] = 7
+    consts_given = dict(consts)
     with core.scratch("xv-c07-") as root:
         fn = crops.record("int", None)
         ckw = {}
@@ -87,88 +92,154 @@ def run_case(case):
                                combos=(tuple(combos.items()) if combos
                                        else None),
                                constants=consts, verbosity=0, **skw)
-        # ---- what is on disk
-        ids = crops.batch_ids(root, "c7")
-        B = len(ids)
-        require(ids == list(range(1, B + 1)), "batch-ids",
-                f"batch ids {ids}")
-        batches = [crops.read_batch(root, "c7", i) for i in ids]
-        sizes = [len(b) for b in batches]
-        require(all(s > 0 for s in sizes), "empty-batch", f"sizes {sizes}")
-        # ---- what a direct run passes
-        models.LOG.clear()
-        with under_test("direct run"):
-            if cases is None:
-                x.combo_runner(fn, combos, constants={**extra, **consts},
-                               verbosity=0)
+        def check_disk(crop, stage):
+            # ---- what is on disk
+            ids = crops.batch_ids(root, "c7")
+            B = len(ids)
+            require(ids == list(range(1, B + 1)), "batch-ids",
+                    f"batch ids {ids}")
+            batches = [crops.read_batch(root, "c7", i) for i in ids]
+            sizes = [len(b) for b in batches]
+            require(all(s > 0 for s in sizes), "empty-batch", f"sizes {sizes}")
+            # ---- what a direct run passes
+            models.LOG.clear()
+            with under_test("direct run"):
+                if cases is None:
+                    x.combo_runner(fn, combos, constants={**extra, **consts},
+                                   verbosity=0)
+                else:
+                    x.case_runner(fn, fn_args, cases, combos=combos,
+                                  constants={**extra, **consts}, verbosity=0)
+            direct = [models.canon_kw(kw) for kw in models.LOG]
+            require(len(direct) == N, "harness", f"{len(direct)} != N={N}")
+            sown = [models.canon_kw(kw) for b in batches for kw in b]
+            if collections.Counter(sown) != collections.Counter(direct):
+                cd, cs = collections.Counter(direct), collections.Counter(sown)
+                core.violated(
+                    "not-a-partition",
+                    f"{stage}: N={N} spec={spec}: sown {len(sown)} settings; missing "
+                    f"{list((cd - cs).elements())[:2]}, extra/repeated "
+                    f"{list((cs - cd).elements())[:2]}; sizes {sizes}")
+            if not shuffle:
+                # direct run of a grid iterates in the given argument order; the
+                # sower sorts arguments by name: compare against that order
+                if cases is None:
+                    names = sorted(combos)
+                    want = []
+                    for vals in itertools.product(*[combos[a] for a in names]):
+                        kw = dict(zip(names, vals))
+                        kw.update(extra)
+                        kw.update(consts)
+                        want.append(models.canon_kw(kw))
+                else:
+                    want = direct
+                require(sown == want, "unshuffled-order",
+                        f"{stage}: N={N} spec={spec}: batch concatenation is not in "
+                        f"sweep order")
+            # ---- requested size / count
+            if spec is None:
+                require(B == N and set(sizes) == {1}, "default-batching",
+                        f"default: B={B}, sizes {sizes}")
+            elif spec[0] == "batchsize":
+                s = spec[1]
+                require(max(sizes) <= s, "batch-too-large",
+                        f"N={N} batchsize={s}: sizes {sizes}")
+                require(B == math.ceil(N / s), "batch-count",
+                        f"N={N} batchsize={s}: B={B}, expected {math.ceil(N/s)}")
             else:
-                x.case_runner(fn, fn_args, cases, combos=combos,
-                              constants={**extra, **consts}, verbosity=0)
-        direct = [models.canon_kw(kw) for kw in models.LOG]
-        require(len(direct) == N, "harness", f"{len(direct)} != N={N}")
-        sown = [models.canon_kw(kw) for b in batches for kw in b]
-        if collections.Counter(sown) != collections.Counter(direct):
-            cd, cs = collections.Counter(direct), collections.Counter(sown)
-            core.violated(
-                "not-a-partition",
-                f"N={N} spec={spec}: sown {len(sown)} settings; missing "
-                f"{list((cd - cs).elements())[:2]}, extra/repeated "
-                f"{list((cs - cd).elements())[:2]}; sizes {sizes}")
-        if not shuffle:
-            # direct run of a grid iterates in the given argument order; the
-            # sower sorts arguments by name: compare against that order
-            if cases is None:
-                names = sorted(combos)
-                want = []
-                for vals in itertools.product(*[combos[a] for a in names]):
-                    kw = dict(zip(names, vals))
-                    kw.update(extra)
-                    kw.update(consts)
-                    want.append(models.canon_kw(kw))
+                k = spec[1]
+                require(B == min(k, N), "batch-count",
+                        f"N={N} num_batches={k}: B={B}, expected {min(k, N)}")
+                require(max(sizes) - min(sizes) <= 1, "unbalanced",
+                        f"N={N} num_batches={k}: sizes {sizes}")
+            # ---- what the crop reports, before and after reload
+            with under_test("crop attributes"):
+                rep = (crop.batchsize, crop.num_batches, crop.num_sown_batches)
+                crop2 = x.Crop(name="c7", parent_dir=root)
+                rep2 = (crop2.batchsize, crop2.num_batches,
+                        crop2.num_sown_batches)
+            require(rep == rep2, "reload-changes-numbers",
+                    f"before reload {rep}, after {rep2}")
+            require(rep[1] == B and rep[2] == B, "reported-num-batches",
+                    f"reports num_batches={rep[1]} num_sown_batches={rep[2]}, "
+                    f"on disk {B}")
+            if spec is not None and spec[0] == "batchsize":
+                require(rep[0] == spec[1], "reported-batchsize",
+                        f"batchsize {rep[0]} != {spec[1]}")
             else:
-                want = direct
-            require(sown == want, "unshuffled-order",
-                    f"N={N} spec={spec}: batch concatenation is not in "
-                    f"sweep order")
-        # ---- requested size / count
-        if spec is None:
-            require(B == N and set(sizes) == {1}, "default-batching",
-                    f"default: B={B}, sizes {sizes}")
-        elif spec[0] == "batchsize":
-            s = spec[1]
-            require(max(sizes) <= s, "batch-too-large",
-                    f"N={N} batchsize={s}: sizes {sizes}")
-            require(B == math.ceil(N / s), "batch-count",
-                    f"N={N} batchsize={s}: B={B}, expected {math.ceil(N/s)}")
-        else:
-            k = spec[1]
-            require(B == min(k, N), "batch-count",
-                    f"N={N} num_batches={k}: B={B}, expected {min(k, N)}")
-            require(max(sizes) - min(sizes) <= 1, "unbalanced",
-                    f"N={N} num_batches={k}: sizes {sizes}")
-        # ---- what the crop reports, before and after reload
-        with under_test("crop attributes"):
-            rep = (crop.batchsize, crop.num_batches, crop.num_sown_batches)
-            crop2 = x.Crop(name="c7", parent_dir=root)
-            rep2 = (crop2.batchsize, crop2.num_batches,
-                    crop2.num_sown_batches)
-        require(rep == rep2, "reload-changes-numbers",
-                f"before reload {rep}, after {rep2}")
-        require(rep[1] == B and rep[2] == B, "reported-num-batches",
-                f"reports num_batches={rep[1]} num_sown_batches={rep[2]}, "
-                f"on disk {B}")
-        if spec is not None and spec[0] == "batchsize":
-            require(rep[0] == spec[1], "reported-batchsize",
-                    f"batchsize {rep[0]} != {spec[1]}")
-        else:
-            require(rep[0] == min(sizes), "reported-batchsize",
-                    f"batchsize {rep[0]} != smallest batch {min(sizes)}")
+                require(rep[0] == min(sizes), "reported-batchsize",
+                        f"batchsize {rep[0]} != smallest batch {min(sizes)}")
+            return B
+
+        B = check_disk(crop, "first sow")
+        resow = case.get("resow")
+        if case["farmer"] and not resow:
+            # the same constants object is handed to the crop of another
+            # farmer with other stored constants/resources: its settings
+            # must be what a direct run of *that* farmer passes
+            runner2 = x.Runner(fn, "out", fn_args=fn_args,
+                               constants={"p": 4, "r": 0},
+                               resources={"big": [9]})
+            extra2 = {"p": 4, "r": 0, "big": [9]}
+            with under_test("sow for a second farmer"):
+                crop_b = runner2.Crop(name="c7b", parent_dir=root, **ckw)
+                if cases is None:
+                    crop_b.sow_combos(combos, constants=consts,
+                                      shuffle=shuffle, verbosity=0, **skw)
+                else:
+                    crop_b.shuffle = shuffle
+                    crop_b.sow_cases(fn_args, cases,
+                                     combos=(tuple(combos.items()) if combos
+                                             else None),
+                                     constants=consts, verbosity=0, **skw)
+            models.LOG.clear()
+            with under_test("direct run"):
+                if cases is None:
+                    x.combo_runner(fn, combos,
+                                   constants={**extra2, **consts_given},
+                                   verbosity=0)
+                else:
+                    x.case_runner(fn, fn_args, cases, combos=combos,
+                                  constants={**extra2, **consts_given},
+                                  verbosity=0)
+            direct_b = collections.Counter(models.canon_kw(kw)
+                                           for kw in models.LOG)
+            sown_b = collections.Counter(
+                models.canon_kw(kw) for i in crops.batch_ids(root, "c7b")
+                for kw in crops.read_batch(root, "c7b", i))
+            if sown_b != direct_b:
+                core.violated(
+                    "second-farmer-settings",
+                    f"N={N} spec={spec}: a second farmer's crop sown with "
+                    f"the same constants object holds "
+                    f"{list((sown_b - direct_b).elements())[:2]}, a direct "
+                    f"run passes {list((direct_b - sown_b).elements())[:2]}")
+        if resow:
+            with under_test("re-sow"):
+                if resow == "recreate":
+                    # a new object over the sown folder picks the batching up
+                    # from disk
+                    crop = mk()
+                if cases is None:
+                    crop.sow_combos(combos, constants=consts,
+                                    shuffle=shuffle, verbosity=0)
+                else:
+                    crop.shuffle = shuffle
+                    crop.sow_cases(fn_args, cases,
+                                   combos=(tuple(combos.items()) if combos
+                                           else None),
+                                   constants=consts, verbosity=0)
+            B2 = check_disk(crop, f"re-sow ({resow})")
+            require(B2 == B, "resow-changed-batch-count",
+                    f"N={N} spec={spec}: {B} batches, {B2} after sowing the "
+                    f"same work again")
     nt = (N % B != 0) or (spec is not None and spec[1] > N)
     return {"nontrivial": nt,
             "classes": [f"real={case['real']}", f"shuffle={shuffle}",
                         f"spec={'default' if spec is None else spec[0]}",
                         f"where={case['where']}",
-                        f"farmer={case['farmer']}"]}
+                        f"farmer={case['farmer']}",
+                        f"resow={case.get('resow')}"]}
 
 
 def enumerate_cases(tier, seed):
@@ -190,10 +261,14 @@ def enumerate_cases(tier, seed):
         for i, spec in enumerate(specs):
             for j, (real, shape) in enumerate(reals):
                 vs = variants
-                for sh, where, farmer in vs:
+                for v, (sh, where, farmer) in enumerate(vs):
+                    # every (N, spec, realisation) is sown again by the same
+                    # object and by a re-created one; which of the twelve
+                    # variants does it rotates
+                    rs = [None, "same", "recreate"][(i + j + v + N) % 3]
                     yield {"N": N, "real": real, "shape": list(shape),
                            "spec": spec, "shuffle": sh, "where": where,
-                           "farmer": farmer}
+                           "farmer": farmer, "resow": rs}
 
 
 PHASES = [
